@@ -235,13 +235,19 @@ Run(files, p, cmds, reps, after, i, st) ==
 
 Ident(n) == [i \in 1..n |-> i]
 
-\* D1: some consistent numbering explains the session (the order of `files' is tried first)
-SessionVerdict(files, cmds, reps, after) ==
+\* D1: the session is accepted when some consistent numbering explains it (the order of `files', which is
+\* the order of modification times mt, is tried first).  When none does, the clause reported is the one of
+\* the numbering in modification time order - if several files have the same time, of the one among those
+\* orders that explains the longest prefix of the session.  (This only selects what is reported.)
+Progress(v) == IF v[1] = "" THEN 1000001 ELSE IF v[2] = 0 THEN 1000000 ELSE v[2]
+SessionVerdict(files, mt, cmds, reps, after) ==
   LET n == Len(files)
       v == Run(files, Ident(n), cmds, reps, after, 1, St0)
-  IN IF v[1] = "" THEN v
+  IN IF v[1] = "" \/ n < 2 THEN v
      ELSE IF \E q \in Permutations(1..n) : Run(files, q, cmds, reps, after, 1, St0)[1] = "" THEN <<"", 0>>
-     ELSE v
+     ELSE LET vs == {Run(files, q, cmds, reps, after, 1, St0) :
+                       q \in {r \in Permutations(1..n) : \A i \in 1..(n - 1) : mt[r[i]] <= mt[r[i + 1]]}}
+          IN CHOOSE w \in vs : \A u \in vs : Progress(w) >= Progress(u)
 
 \* qmail-pop3d(8): refuses to run as root, exits 1; nothing is served, nothing is touched
 RootVerdict(files, greet, reps, after, rc) ==
